@@ -95,4 +95,18 @@ def replay (cfg : Cfg) (v : Bool) (s : State) : List (Nat × Record) → Option 
 def rootList (owner : Nat) (opts : Option Nat) : AclList :=
   { ids := [0], state := applyRoot owner opts, stored := [0], log := [] }
 
+/-! ### the keep-only-ours partial decode (`keepidentity.go`, as a projection of the decoded record) -/
+
+/-- `filterAccountKeys`: keep only the observer's own entry -/
+def shrinkRkc (me : Nat) (rk : Rkc) : Rkc := { rk with accs := rk.accs.filter (· == me) }
+
+/-- `fullDecodeFilter` / `unmarshalAclDataKeepIdentity`: the keep-only-ours view of a content -/
+def shrinkContent (me : Nat) : Content → Content
+  | .rkc rk => .rkc (shrinkRkc me rk)
+  | .rem l rk => .rem l (shrinkRkc me rk)
+  | c => c
+
+def shrinkRecord (me : Nat) (r : Record) : Record := { r with contents := r.contents.map (shrinkContent me) }
+
+
 end AnySync.Acl
